@@ -121,7 +121,7 @@ def inductive_query(prefix, backend='idn2', **kw):
 
 def c13_queries(tier):
     K = 4 if tier == 'quick' else 6
-    return [history_query('C13', K, timeout=3000), inductive_query('C13')]
+    return [history_query('C13', K, timeout=3000), inductive_query('C13'), tld_query('C13', 2, 8, twice=True)]
 
 
 def c15_queries(tier):
@@ -252,8 +252,9 @@ def tldtable_query(prefix):
                  note='expected table regenerated from data/punycode.csv on every run (vflib/pre.py)', timeout=1500)
 
 
-def tld_query(prefix, K, L):
-    return Query('%s-is_tld-symtable-K%d-L%d' % (prefix, K, L), 'a_tld.c', repo=['src/is_tld.c'], defs=D(VF_K=K, VF_L=L),
+def tld_query(prefix, K, L, twice=False):
+    return Query('%s-is_tld-symtable-K%d-L%d%s' % (prefix, K, L, '-twice' if twice else ''), 'a_tld.c', repo=['src/is_tld.c'],
+                 defs=D(VF_K=K, VF_L=L) + (['-DVF_TWICE'] if twice else []),
                  unwind=max(K, L) + 3, covers=['end', 'listed', 'unlisted', 'one-char-extension-of-row0'],
                  bounds={'table_rows': K, 'name_len': '1..%d' % L, 'query_len': '0..%d' % (L + 1)},
                  functions=['is_tld'], note='real is_tld.c against a symbolic table; the step to 1591 rows rests on the loop treating rows uniformly',
@@ -269,6 +270,17 @@ def special_query(prefix, N, prefixlen=None, **kw):
                  bounds={'max_len': N, 'domain': 'every valid host name without root dot' + (
                      '; first <=%d bytes: one symbolic fill letter with 3 symbolic dot positions' % prefixlen if prefixlen else '')},
                  functions=['is_special_domain'], **kw)
+
+
+def special_long_query(prefix, N, prefixlen, memsafe=False, **kw):
+    defs = D(VF_N=N, VF_PREFIXLEN=prefixlen) + (['-DVF_MEMSAFE', '-DVF_TAIL_ALIGN'] if memsafe else [])
+    return Query('%s-special-%s-N%d-prefix%d' % (prefix, 'memsafe' if memsafe else 'long', N, prefixlen), 'a_special.c',
+                 repo=['src/is_special_domain.c'], defs=defs, unwind=N + 3, stubs=['env.c', 'memcpy_loop.c'],
+                 unwindset={'is_special_domain.0': 24, 'is_special_domain.3': 24},
+                 covers=['end', 'long-input'] if memsafe else ['end', 'special-tld-after-label', 'not-special', 'special-second-level'],
+                 bounds={'max_len': N, 'structure': 'first <=%d bytes: one symbolic fill letter with 3 symbolic dot positions; the rest arbitrary' % prefixlen,
+                         'domain': 'ANY string (memory safety only)' if memsafe else 'every valid host name without root dot'},
+                 functions=['is_special_domain'], solver='cadical', **kw)
 
 
 def c07_queries(tier):
@@ -350,10 +362,10 @@ def c20_queries(tier):
                 bounds={'lines': lines, 'bytes_per_line': ll, 'terminators': 'LF, CRLF, none on the last line', 'alphabet': '0x01-0xFF except LF'},
                 functions=['main', 'parse_file'], note='fopen/getline/fclose/fprintf/setlocale and the libeav API are recording stubs; sanitize_utf8 intercepted',
                 timeout=3000)]
-    for ts, n in ((6, 8),) if tier == 'quick' else ((6, 8), (8, 10), (2048, 5)):
+    for ts, n in ((6, 8),) if tier == 'quick' else ((6, 8), (8, 10), (16, 12)):
         qs.append(Query('C20-sanitize-T%d-N%d' % (ts, n), 'd_cli.c', repo=['bin/utf8_decode.c'],
-                        defs=D(VF_D=2, VF_N=n, LIBEAV_VERIF_TEXT_SIZE=ts), unwind=max(14, n + 4),
-                        covers=['end', 'ill-formed-input'] + (['longer-than-buffer', 'buffer-full', 'echo-multibyte'] if ts < 100 else ['echo-multibyte']),
+                        defs=D(VF_D=2, VF_N=n, LIBEAV_VERIF_TEXT_SIZE=ts, VF_TWICE=None), unwind=max(14, n + 4),
+                        covers=['end', 'ill-formed-input'] + (['longer-than-buffer', 'buffer-full', 'echo-multibyte'] if ts < 10 else ['echo-multibyte']),
                         bounds={'text_len': n, 'TEXT_SIZE': ts, 'alphabet': '0x01-0xFF'},
                         functions=['sanitize_utf8', 'utf8_decode_init', 'utf8_decode_next', 'utf8_decode_at_byte'],
                         note='static buffer shrunk by the LIBEAV_VERIF hook so that both sides of the limit are reached' if ts < 100 else 'real TEXT_SIZE',
